@@ -495,6 +495,35 @@ UnitsSpec genDefinition(GenCtx &g, size_t mi, const std::string &name, const std
         u.units = expansionOf(g, mi, base);
         return u;
     }
+    if (strat == 5 && !g.inRegimeOnly) { // respelling: (p u)^e written as (p*e u).u...u - the same unit, but inside the exponent-1 regime
+        const UnitsSpec *of = j.empty() ? nullptr : findUnits(m.spec, j);
+        if (of != nullptr && of->import < 0) {
+            bool changed = false;
+            for (const auto &c : of->units) {
+                int e = static_cast<int>(c.exponent);
+                bool pok = true;
+                int pv = prefixValue(c.prefix, &pok);
+                if ((c.exponent == 2.0 || c.exponent == 3.0) && pok && pv != 0 && std::abs(pv * e) <= 72 && c.multiplier == 1.0 && p.red(m, c.ref).log10scale == 0.0) {
+                    UnitSpec first;
+                    first.ref = c.ref;
+                    first.prefix = std::to_string(pv * e);
+                    u.units.push_back(first);
+                    for (int k = 1; k < e; ++k) {
+                        UnitSpec plain;
+                        plain.ref = c.ref;
+                        u.units.push_back(plain);
+                    }
+                    changed = true;
+                } else {
+                    u.units.push_back(c);
+                }
+            }
+            if (changed) {
+                return u;
+            }
+            u.units.clear();
+        }
+    }
     size_t n = 1 + src.below(4);
     for (size_t i = 0; i < n; ++i) {
         u.units.push_back(genChild(g, mi, prev));
@@ -824,7 +853,16 @@ void consumerValidator(ConsumerEnv &e, const std::vector<ConsumerPair> &pairs, b
     if (flatten) {
         model = b.importer->flattenModel(b.main);
         if (model == nullptr) {
-            e.fails.add("C08.harness|flatten-null", "flattenModel returned null\n" + issuesText(b.importer));
+            bool revisit = false;
+            for (const auto &m : e.members) {
+                revisit = revisit || m.traits.importRevisit;
+            }
+            if (revisit) {
+                // Model::hasUnresolvedImports() shares the never-popped import history of the known finding
+                e.c.count("flatten_refused_import-revisited-after-chain_not_judged");
+            } else {
+                e.fails.add("C08.harness|flatten-null", "flattenModel returned null\n" + issuesText(b.importer));
+            }
             return;
         }
         e.c.cls("consumer:flattened");
@@ -849,6 +887,12 @@ void consumerValidator(ConsumerEnv &e, const std::vector<ConsumerPair> &pairs, b
         text[k] = d;
     }
     if (!unexpected.empty()) {
+        if (unexpected.find("Cyclic units exist") != std::string::npos) {
+            // the world is acyclic by construction: a false positive of the validator's units-cycle check (seen when a
+            // units is referenced twice and reaches an import) - import/cycle validation is C07's subject
+            e.c.count("consumer_model_rejected_by_false_cycle_report_not_judged");
+            return;
+        }
         if (flatten) {
             // the flattened model itself is not valid: a flattening matter (C06), nothing to judge here
             e.c.count("flattened_model_invalid_not_judged");
@@ -968,7 +1012,16 @@ void consumerAnalyser(ConsumerEnv &e, const std::vector<ConsumerPair> &pairs, bo
     if (flatten) {
         model = b.importer->flattenModel(b.main);
         if (model == nullptr) {
-            e.fails.add("C08.harness|flatten-null", "flattenModel returned null\n" + issuesText(b.importer));
+            bool revisit = false;
+            for (const auto &m : e.members) {
+                revisit = revisit || m.traits.importRevisit;
+            }
+            if (revisit) {
+                // Model::hasUnresolvedImports() shares the never-popped import history of the known finding
+                e.c.count("flatten_refused_import-revisited-after-chain_not_judged");
+            } else {
+                e.fails.add("C08.harness|flatten-null", "flattenModel returned null\n" + issuesText(b.importer));
+            }
             return;
         }
     }
@@ -979,6 +1032,12 @@ void consumerAnalyser(ConsumerEnv &e, const std::vector<ConsumerPair> &pairs, bo
     e.c.cls("consumer:analyser");
     std::vector<int> warned(pairs.size(), 0);
     std::vector<std::string> wtext(pairs.size());
+    for (size_t i = 0; i < an->issueCount(); ++i) {
+        if (an->issue(i)->description().find("Cyclic units exist") != std::string::npos) {
+            e.c.count("consumer_model_rejected_by_false_cycle_report_not_judged");
+            return;
+        }
+    }
     if (flatten && am != nullptr && am->type() == AnalyserModel::Type::INVALID) {
         e.c.count("flattened_model_invalid_not_judged");
         return;
